@@ -1,0 +1,78 @@
+// Copyright 2020-2025 Buf Technologies, Inc.
+//
+// Licensed under the Apache License, Version 2.0 (the "License");
+// you may not use this file except in compliance with the License.
+// You may obtain a copy of the License at
+//
+//      http://www.apache.org/licenses/LICENSE-2.0
+//
+// Unless required by applicable law or agreed to in writing, software
+// distributed under the License is distributed on an "AS IS" BASIS,
+// WITHOUT WARRANTIES OR CONDITIONS OF ANY KIND, either express or implied.
+// See the License for the specific language governing permissions and
+// limitations under the License.
+
+//go:build verif
+
+package verifhook
+
+import (
+	"context"
+	"sync/atomic"
+)
+
+// Enabled says whether the hooks are compiled in.
+const Enabled = true
+
+// Handler receives the hook calls.
+type Handler interface {
+	Point(ctx context.Context, name string, args []string)
+	Fault(ctx context.Context, name string, arg string, err error) error
+	Shorten(name string, p []byte) ([]byte, error)
+	JobContext(ctx context.Context, index int) context.Context
+}
+
+type handlerBox struct{ h Handler }
+
+var handler atomic.Pointer[handlerBox]
+
+// SetHandler installs h; nil uninstalls.
+func SetHandler(h Handler) {
+	if h == nil {
+		handler.Store(nil)
+		return
+	}
+	handler.Store(&handlerBox{h: h})
+}
+
+// Point marks a named point in an execution. ctx may be nil.
+func Point(ctx context.Context, name string, args ...string) {
+	if b := handler.Load(); b != nil {
+		b.h.Point(ctx, name, args)
+	}
+}
+
+// Fault gives the harness the chance to replace err by an injected error.
+func Fault(ctx context.Context, name string, arg string, err error) error {
+	if b := handler.Load(); b != nil {
+		return b.h.Fault(ctx, name, arg, err)
+	}
+	return err
+}
+
+// Shorten gives the harness the chance to truncate p and/or inject an error
+// that is reported after the truncated p was handled.
+func Shorten(name string, p []byte) ([]byte, error) {
+	if b := handler.Load(); b != nil {
+		return b.h.Shorten(name, p)
+	}
+	return p, nil
+}
+
+// JobContext returns the context for the index-th job of a parallel section.
+func JobContext(ctx context.Context, index int) context.Context {
+	if b := handler.Load(); b != nil {
+		return b.h.JobContext(ctx, index)
+	}
+	return ctx
+}
